@@ -486,6 +486,90 @@ class SeqEcho:
         k = len(self.seen) - 1
         return 200, 'Ok', self.answers[k] if k < len(self.answers) else b'<unexpected-extra-call/>'
 
+    def do_get(self, headers, path, peer_name):
+        self.seen.append(None)
+        k = len(self.seen) - 1
+        return 200, 'Ok', self.answers[k] if k < len(self.answers) else b'<unexpected-extra-call/>', 'text/xml; charset=utf-8'
+
+
+def strict_split_responses(raw, limit=50):
+    """RFC 7230 3.3 reading of everything the server wrote on one connection, independent of http.client:
+    status line, header block, then EXACTLY ONE of Content-Length (that many bytes) / Transfer-Encoding: chunked
+    (1*HEXDIG CRLF data CRLF ... 0 CRLF CRLF); the next response must start right behind."""
+    import re as _re
+    pos, res = 0, []
+    while pos < len(raw) and len(res) < limit:
+        m = _re.compile(rb'HTTP/1\.[01] (\d{3})[^\r\n]*\r\n').match(raw, pos)
+        if not m:
+            res.append({'status': None, 'framing_error': f'no status line at offset {pos}: {raw[pos:pos + 30]!r}'})
+            break
+        status = int(m.group(1))
+        end = raw.find(b'\r\n\r\n', m.end() - 2)
+        if end < 0:
+            res.append({'status': status, 'framing_error': 'header block not terminated'})
+            break
+        hdrs = {}
+        dup = None
+        for ln in raw[m.end():end].split(b'\r\n'):
+            if not ln:
+                continue
+            k, sep, v = ln.partition(b':')
+            k = k.strip().lower().decode('latin-1')
+            if not sep:
+                dup = f'header line without colon: {ln[:40]!r}'
+            if k in ('content-length', 'transfer-encoding', 'content-encoding') and k in hdrs:
+                dup = f'{k} sent twice'
+            hdrs[k] = v.strip().decode('latin-1')
+        pos = end + 4
+        err, body = dup, None
+        cl, te = hdrs.get('content-length'), hdrs.get('transfer-encoding')
+        if status // 100 == 1 or status in (204, 304):
+            body = b''
+        elif cl is not None and te is not None:
+            err = err or f'Content-Length ({cl}) and Transfer-Encoding ({te}) in the same response'
+            body = None
+        elif te is not None:
+            if te.lower() != 'chunked':
+                err = err or f'Transfer-Encoding {te!r}'
+            else:
+                body = b''
+                while True:
+                    c = _re.compile(rb'([0-9a-fA-F]+)\r\n').match(raw, pos)
+                    if not c:
+                        err, body = err or f'malformed chunk size line at offset {pos}', None
+                        break
+                    n = int(c.group(1), 16)
+                    data = raw[c.end():c.end() + n]
+                    if len(data) != n or raw[c.end() + n:c.end() + n + 2] != b'\r\n':
+                        err, body = err or f'chunk of {n} bytes not followed by CRLF / truncated', None
+                        break
+                    pos = c.end() + n + 2
+                    if n == 0:
+                        break
+                    body += data
+        elif cl is not None:
+            if not cl.isdigit():
+                err = err or f'Content-Length {cl!r}'
+            else:
+                body = raw[pos:pos + int(cl)]
+                if len(body) != int(cl):
+                    err, body = err or f'Content-Length {cl} but only {len(body)} bytes follow', None
+                pos += int(cl)
+        else:
+            err = err or 'neither Content-Length nor Transfer-Encoding on a kept-alive connection'
+        content = None
+        if body is not None and err is None:
+            ce = hdrs.get('content-encoding')
+            try:
+                content = CompressionHandler.decompress_payload(ce, body) if ce else body
+            except Exception as exc:  # noqa: BLE001
+                err = f'body is not valid {ce}: {type(exc).__name__}'
+        res.append({'status': status, 'ce': hdrs.get('content-encoding'), 'te': te, 'cl': cl,
+                    'content': None if content is None else content.hex(), 'framing_error': err, 'err': err})
+        if err:
+            break
+    return res, len(raw) - pos if not (res and res[-1].get('framing_error')) else len(raw) - pos
+
 
 class SharedSock:
     """all HTTPResponse objects of one connection read from the same buffered stream (close() of one must not end it)"""
@@ -538,6 +622,10 @@ def run_conn(c):
     raw = b''
     for r in reqs:
         body = bytes.fromhex(r['body'])
+        if r.get('method') == 'GET':
+            raw += b'GET /dev/svc?wsdl HTTP/1.1\r\nHost: h\r\n' + \
+                (b'' if r.get('accept') is None else b'Accept-Encoding: ' + r['accept'].encode('latin-1') + b'\r\n') + b'\r\n'
+            continue
         head = b'POST /dev/svc HTTP/1.1\r\nHost: h\r\n'
         if r.get('accept') is not None:
             head += b'Accept-Encoding: ' + r['accept'].encode('latin-1') + b'\r\n'
@@ -551,11 +639,125 @@ def run_conn(c):
             head += b'Content-Length: %d\r\n' % len(body)
         raw += head + b'\r\n' + body
     out_bytes, escaped = serve(raw, srv)
-    responses, rest = parse_responses(out_bytes)
+    responses, rest = strict_split_responses(out_bytes)
     return {'escaped': escaped, 'server_saw': [None if b is None else b.hex() for b in echo.seen],
-            'responses': [{'status': st, 'ce': h.get('content-encoding'), 'te': h.get('transfer-encoding'),
-                           'content': None if b is None else b.hex(), 'err': e} for st, h, b, e in responses],
-            'unparsed_output': len(rest)}
+            'responses': responses, 'unparsed_output': rest if not any(r.get('framing_error') for r in responses) else 0}
+
+
+def run_config(c):  # noqa: PLR0915, C901
+    """order of API calls: set_used_compression before / after start, several times; after every call the running http
+    server, a SOAP client created earlier and a freshly created one are probed: only codings enabled at that moment"""
+    import threading
+    import uuid
+
+    import sdc11073.definitions_sdc  # noqa: F401
+    from sdc11073.definitions_sdc import SdcV1Definitions
+    ALL = ['x-lz4', 'gzip', 'lz4']
+    obs = []
+
+    class FakeServerThread:
+        instances = []
+
+        def __init__(self, my_ipaddress=None, ssl_context=None, supported_encodings=None, logger=None, chunk_size=0, **kw):
+            self.supported_encodings, self.chunk_size = supported_encodings, chunk_size
+            self.dispatcher = PathElementRegistry()
+            self.logger = LoggerAdapter(logging.getLogger('c17.cfg'))
+            self.server_port, self.base_url = 9100, 'http://127.0.0.1:9100/'
+            self.started_evt = threading.Event()
+            self.started_evt.set()
+            FakeServerThread.instances.append(self)
+
+        def start(self):
+            pass
+
+        def stop(self):
+            pass
+
+    def probe_client(sc):
+        conn = FakeConn(b'HTTP/1.1 200 OK\r\nContent-Length: 0\r\n\r\n')
+        sc._http_connection = conn
+        try:
+            sc._send_soap_request('/p', b'<x>' + b'payload ' * 40 + b'</x>', 'cfg')
+        except Exception as e:  # noqa: BLE001
+            return {'exc': f'{type(e).__name__}: {e}'[:120]}
+        h = conn.requests[0][3]
+        return {'ce': h.get('Content-Encoding'), 'accept': h.get('Accept-Encoding')}
+
+    def probe_server(srv, path):
+        raw = b'GET ' + path.encode() + b' HTTP/1.1\r\nHost: h\r\nAccept-Encoding: ' + ', '.join(ALL).encode() + b'\r\n\r\n'
+        out_bytes, escaped = serve(raw, srv)
+        res, _ = strict_split_responses(out_bytes)
+        r = res[0] if res else {}
+        return {'ce': r.get('ce'), 'status': r.get('status'), 'framing_error': r.get('framing_error'), 'escaped': escaped}
+
+    def snapshot(phase, enabled, srv, path, old_client, mk_client):
+        o = {'phase': phase, 'enabled': list(enabled)}
+        if srv is not None:
+            o['server'] = probe_server(srv, path)
+        if old_client is not None:
+            o['old_client'] = probe_client(old_client)
+        o['new_client'] = probe_client(mk_client())
+        obs.append(o)
+
+    enabled = list(CompressionHandler.available_encodings)
+    if c['side'] == 'provider':
+        from sdc11073.provider import providerimpl
+        from sdc11073.provider.providerimpl import provider_components_sync_factory
+        from sdc11073.pysoap.soapclient import SoapClient
+        from tests.mockstuff import MockWsDiscovery, SomeDevice
+        real_cls = providerimpl.HttpServerThreadBase
+        providerimpl.HttpServerThreadBase = FakeServerThread
+        prov = None
+        try:
+            pc = provider_components_sync_factory()
+            pc.soap_client_class = SoapClient
+            import os
+            repo = os.environ.get('VERIF_REPO', '/repo')
+            prov = SomeDevice.from_mdib_file(MockWsDiscovery('127.0.0.1'), uuid.UUID(int=0xabd), repo + '/tests/70041_MDIB_Final.xml',
+                                             components=pc, role_provider_components=None, chunk_size=c.get('chunk', 0))
+            mk = lambda: prov._mk_soap_client('127.0.0.1:9', list(ALL))  # noqa: E731
+            for cod in c['pre']:
+                prov.set_used_compression(*cod)
+                enabled = list(cod)
+                snapshot('before start', enabled, None, None, None, mk)
+            old = mk()
+            prov.start_all(start_rtsample_loop=False)
+            srv = FakeServerThread.instances[-1]
+            path = '/' + prov.path_prefix + '/Get/?wsdl'
+            snapshot('after start', enabled, srv, path, old, mk)
+            for cod in c['post']:
+                prov.set_used_compression(*cod)
+                enabled = list(cod)
+                snapshot('set_used_compression after start', enabled, srv, path, old, mk)
+        finally:
+            providerimpl.HttpServerThreadBase = real_cls
+            try:
+                if prov is not None:
+                    for reg in prov._sco_operations_registries.values():
+                        reg.stop_worker()
+                    for mgr in prov._subscriptions_managers.values():
+                        mgr._run_housekeeping_thread = False
+            except Exception:  # noqa: BLE001
+                pass
+    else:
+        from sdc11073.consumer.consumerimpl import SdcConsumer
+        cons = SdcConsumer('http://127.0.0.1:9/00000000000000000000000000000abd', sdc_definitions=SdcV1Definitions, ssl_context_container=None,
+                           request_chunk_size=c.get('chunk', 0))
+        n = [0]
+
+        def mk():
+            n[0] += 1
+            return cons._mk_soap_client(False, f'127.0.0.1:{9 + n[0]}')
+        for cod in c['pre']:
+            cons.set_used_compression(*cod)
+            enabled = list(cod)
+            snapshot('before connect', enabled, None, None, None, mk)
+        old = cons.get_soap_client('http://127.0.0.1:9/x')
+        for cod in c['post']:
+            cons.set_used_compression(*cod)
+            enabled = list(cod)
+            snapshot('set_used_compression with existing client', enabled, None, None, old, mk)
+    return {'observations': obs}
 
 
 def run_codec(c):
@@ -592,7 +794,7 @@ def run_codec(c):
 
 RUNNERS = {'mk_chunks': run_mk_chunks, 'reader': run_reader, 'response': run_response,
            'parse_header': run_parse_header, 'server_choice': run_server_choice,
-           'client_choice': run_client_choice, 'e2e': run_e2e, 'raw': run_raw, 'codec': run_codec, 'conn': run_conn}
+           'client_choice': run_client_choice, 'e2e': run_e2e, 'raw': run_raw, 'codec': run_codec, 'conn': run_conn, 'config': run_config}
 for key, fn in RUNNERS.items():
     if key in req:
         res = []
